@@ -150,6 +150,9 @@ def map_sqf(op):
         return "k = [j, 0]", False
     if k == "mutj":
         return "j pushBack 9", False
+    if k == "mutval":
+        m, ks = op["m"], key_sqf(op["key"])
+        return "if (%s in %s && {(%s get %s) isEqualType []}) then { (%s get %s) pushBack 9 }" % (ks, m, m, ks, m, ks), False
     if k == "mutkeys":
         return "{ if (_x isEqualType []) then { _x pushBack 9; if (count _x > 0 && {(_x select 0) isEqualType []}) then { (_x select 0) pushBack 9 } } } forEach (keys %s)" % op["m"], False
     raise vlib.MachineryError("map op " + k)
@@ -181,9 +184,9 @@ def random_map_histories(rng, n, length):
     for _ in range(n):
         h = []
         for _ in range(length):
-            k = rng.choice(["set", "set", "set", "get", "del", "in", "count", "fromArray", "copy", "newk", "mutk", "mutk", "newkj", "newkj", "mutj", "mutj", "create", "mutkeys", "mutkeys"])
+            k = rng.choice(["set", "set", "set", "get", "del", "in", "count", "fromArray", "copy", "newk", "mutk", "mutk", "newkj", "newkj", "mutj", "mutj", "create", "mutkeys", "mutkeys", "mutval", "mutval"])
             m = rng.choice(MAPS)
-            if k in ("get", "del", "in"):
+            if k in ("get", "del", "in", "mutval"):
                 op = {"op": k, "m": m, "key": rng.choice(keys)}
             elif k == "set":
                 op = {"op": k, "m": m, "key": rng.choice(keys), "val": rng.choice(vals)}
@@ -216,6 +219,10 @@ def directed_map_histories():
                             {"op": "mutj"}, {"op": look, "m": "m", "key": KV}, {"op": "count", "m": "m"}])
                 out.append([{"op": "newkj"}, {"op": "set", "m": "m", "key": lit(stored), "val": N(5)}, {"op": "set", "m": "n", "key": KV, "val": N(6)},
                             {"op": "mutj"}, {"op": look, "m": "m", "key": KV}, {"op": look, "m": "n", "key": KV}, {"op": look, "m": "n", "key": lit(before)}])
+        # an array stored as value is changed through get: the map it was copied to / from holds an array of its own
+        for first, second in (("m", "n"), ("n", "m")):
+            out.append([{"op": "set", "m": "m", "key": lit(S("a")), "val": A(N(1))}, {"op": "copy", "m": "n", "src": "m"}, {"op": "mutval", "m": first, "key": lit(S("a"))},
+                        {"op": look, "m": second, "key": lit(S("a"))}, {"op": "mutval", "m": second, "key": lit(S("a"))}, {"op": "mutval", "m": second, "key": lit(S("a"))}, {"op": "count", "m": first}])
         # the arrays handed out by `keys` are changed in place: the stored keys are not
         for stored in (A(N(0)), A(A(N(3)), N(0))):
             out.append([{"op": "set", "m": "m", "key": lit(stored), "val": N(5)}, {"op": "mutkeys", "m": "m"}, {"op": look, "m": "m", "key": lit(stored)}, {"op": "count", "m": "m"},
